@@ -61,28 +61,38 @@ Proof. cbn [ok_at]. intro H. apply andb_true_iff in H as [H _]. exact H. Qed.
 
 (* ---- Appendix-B split of a text of the rendered shape ---------------------------------------- *)
 Lemma rfc_split_shape scheme auth pathtxt qs fr :
-  scheme <> [] -> forallb (nin [58; 47; 63; 35]) scheme = true ->
+  forallb (nin [58; 47; 63; 35]) scheme = true ->
   forallb (nin [47; 63; 35]) auth = true ->
   (pathtxt = [] \/ exists p', pathtxt = 47 :: p') -> forallb (nin [63; 35]) pathtxt = true ->
   forallb (nin [35]) qs = true ->
-  rfc_split (scheme ++ [58] ++ [47; 47] ++ auth ++ pathtxt ++ qpart qs ++ fpart fr)
-  = (Some scheme, Some auth, pathtxt, some_if qs, some_if fr).
+  rfc_split (sprefix scheme ++ [47; 47] ++ auth ++ pathtxt ++ qpart qs ++ fpart fr)
+  = (some_if scheme, Some auth, pathtxt, some_if qs, some_if fr).
 Proof.
-  intros NE Hs Ha Hp0 Hp Hq. unfold rfc_split.
-  rewrite (span_stop _ scheme _ Hs) by reflexivity.
-  destruct scheme as [|s0 sr]; [contradiction|]. cbn [app].
+  intros Hs Ha Hp0 Hp Hq.
   assert (S2 : stops (nin [47; 63; 35]) (pathtxt ++ qpart qs ++ fpart fr) = true).
   { destruct Hp0 as [->|[p' ->]]; [|reflexivity]. cbn [app]. unfold qpart, fpart.
     destruct (nonempty qs); [reflexivity|]. destruct (nonempty fr); reflexivity. }
-  rewrite (span_stop _ auth _ Ha S2).
   assert (S3 : stops (nin [63; 35]) (qpart qs ++ fpart fr) = true).
   { unfold qpart, fpart. destruct (nonempty qs); [reflexivity|]. destruct (nonempty fr); reflexivity. }
-  rewrite (span_stop _ pathtxt _ Hp S3).
-  unfold qpart, fpart, some_if. destruct (nonempty qs) eqn:Q.
-  - cbn [app]. assert (S4 : stops (nin [35]) (if nonempty fr then 35 :: fr else []) = true)
-      by (destruct (nonempty fr); reflexivity).
-    rewrite (span_stop _ qs _ Hq S4). destruct (nonempty fr); reflexivity.
-  - cbn [app]. destruct (nonempty fr) eqn:Fr; reflexivity.
+  assert (TAIL : forall sch : option text,
+            (let '(au, s2) := let '(a, r') := span (nin [47; 63; 35]) (auth ++ pathtxt ++ qpart qs ++ fpart fr) in (Some a, r') in
+             let '(path, s3) := span (nin [63; 35]) s2 in
+             let '(q, s4) := match s3 with
+                             | 63 :: r => let '(a, r') := span (nin [35]) r in (Some a, r')
+                             | _ => (None, s3)
+                             end in
+             let f := match s4 with 35 :: r => Some r | _ => None end in
+             (sch, au, path, q, f)) = (sch, Some auth, pathtxt, some_if qs, some_if fr)).
+  { intro sch. rewrite (span_stop _ auth _ Ha S2). rewrite (span_stop _ pathtxt _ Hp S3).
+    unfold qpart, fpart, some_if. destruct (nonempty qs) eqn:Q.
+    - cbn [app]. assert (S4 : stops (nin [35]) (if nonempty fr then 35 :: fr else []) = true)
+        by (destruct (nonempty fr); reflexivity).
+      rewrite (span_stop _ qs _ Hq S4). destruct (nonempty fr); reflexivity.
+    - cbn [app]. destruct (nonempty fr) eqn:Fr; reflexivity. }
+  unfold rfc_split, sprefix. destruct scheme as [|s0 sr].
+  - cbn [nonempty app span]. change (nin [58; 47; 63; 35] 47) with false. cbn iota. apply (TAIL None).
+  - cbn [nonempty]. rewrite <- app_assoc. rewrite (span_stop _ (s0 :: sr) _ Hs) by reflexivity.
+    cbn [app]. apply (TAIL (Some (s0 :: sr))).
 Qed.
 
 Lemma count_char_none c s : memN c s = false -> count_char c s = O.
@@ -184,12 +194,11 @@ Proof.
 Qed.
 
 Theorem rendered_wf scheme user pw rest q frag :
-  scheme_ok scheme = true -> forallb (not_in [58; 47; 63; 35]) scheme = true -> nfc [] = [] ->
+  (scheme = [] \/ scheme_ok scheme = true) -> forallb (not_in [58; 47; 63; 35]) scheme = true -> nfc [] = [] ->
   scalar_nfc O user -> scalar_nfc O pw -> Forall (scalar_nfc O) rest -> Forall (pair_ok O) q -> scalar_nfc O frag ->
   wf_ref false (rendered T O ht ptxt scheme user pw ([] :: rest) q frag) = true.
 Proof.
   intros SO Hs N0 Su Sp Fp Fq Sf. unfold wf_ref, rendered.
-  assert (NE : scheme <> []) by (destruct scheme; [discriminate|discriminate]).
   assert (Fpath : Forall (scalar_nfc O) ([] :: rest)).
   { constructor; [unfold scalar_nfc; fold nfc; rewrite N0; reflexivity|exact Fp]. }
   assert (P0 : join [47] (map (quote_full T O CPath) ([] :: rest)) = []
@@ -199,10 +208,12 @@ Proof.
     destruct rest as [|y r']; cbn [map].
     - left. cbn [join]. exact Q0.
     - right. rewrite join_nonempty_head, Q0. cbn [app]. eauto. }
-  rewrite (rfc_split_shape scheme _ _ _ (quote_full T O CFrag frag) NE Hs
+  rewrite (rfc_split_shape scheme _ _ _ (quote_full T O CFrag frag) Hs
              (authority_chars T O TOK ht ht_chars ptxt pres port_ok user pw Su Sp) P0
              (path_chars T O TOK _ Fpath) (query_chars T O TOK q Fq)).
-  rewrite SO, (userinfo_at user pw Su Sp). cbn [andb].
+  assert (SO' : match some_if scheme with Some s0 => scheme_ok s0 | None => true end = true).
+  { unfold some_if. destruct SO as [->|SO]; [reflexivity|]. destruct (nonempty scheme); [exact SO|reflexivity]. }
+  rewrite SO', (userinfo_at user pw Su Sp). cbn [andb].
   assert (LP : legal (ok_path false) (join [47] (map (quote_full T O CPath) ([] :: rest))) = true).
   { apply legal_join; [reflexivity|reflexivity|].
     apply Forall_forall. intros y Hy. apply in_map_iff in Hy as [x [<- Hx]].
@@ -230,7 +241,7 @@ Theorem rendered_legal T O :
   forall scheme sep user pw fam host port rest q frag ht,
   let nfc := o_nfc O in
   let u := mkU scheme sep user pw fam host port ([] :: rest) q frag in
-  scheme_ok scheme = true -> forallb (not_in [58; 47; 63; 35]) scheme = true ->
+  (scheme = [] \/ scheme_ok scheme = true) -> forallb (not_in [58; 47; 63; 35]) scheme = true ->
   nfc [] = [] ->
   all_scalar (nfc user) = true -> all_scalar (nfc pw) = true -> all_scalar (nfc frag) = true ->
   Forall (fun s => all_scalar (nfc s) = true) rest ->
@@ -242,11 +253,10 @@ Theorem rendered_legal T O :
 Proof.
   intros TOK scheme sep user pw fam host port rest q frag ht nfc u
          SO Hs N0 Su Sp Sf Fr Fq HNE F6 M58 ENC HTNE HTC HTL PV full R.
-  assert (NE : scheme <> []) by (destruct scheme; discriminate).
   pose proof (port_text_ok T u PV) as PO.
   pose proof (get_authority_plain T O ht (port_text T u) scheme sep user pw fam host port ([] :: rest) q frag
                 HNE F6 M58 ENC eq_refl) as GA.
-  pose proof (to_text_rendered T O ht HTNE (port_text T u) scheme sep user pw fam host port rest q frag NE N0 GA) as R0.
+  pose proof (to_text_rendered T O ht HTNE (port_text T u) scheme sep user pw fam host port rest q frag N0 GA) as R0.
   pose proof (eq_trans (eq_sym R0) R) as EF. inversion EF as [EF'].
   apply (rendered_wf T O TOK ht (weaken_host_chars ht HTC) (port_text T u) (port_back T u) PO
            (hostport_legal_plain (port_text T u) (port_back T u) PO ht HTNE HTC HTL)
@@ -258,7 +268,7 @@ Theorem rendered_legal_v6 T O :
   forall scheme sep user pw fam host port rest q frag,
   let nfc := o_nfc O in
   let u := mkU scheme sep user pw fam host port ([] :: rest) q frag in
-  scheme_ok scheme = true -> forallb (not_in [58; 47; 63; 35]) scheme = true ->
+  (scheme = [] \/ scheme_ok scheme = true) -> forallb (not_in [58; 47; 63; 35]) scheme = true ->
   nfc [] = [] ->
   all_scalar (nfc user) = true -> all_scalar (nfc pw) = true -> all_scalar (nfc frag) = true ->
   Forall (fun s => all_scalar (nfc s) = true) rest ->
@@ -270,7 +280,6 @@ Theorem rendered_legal_v6 T O :
 Proof.
   intros TOK scheme sep user pw fam host port rest q frag nfc u
          SO Hs N0 Su Sp Sf Fr Fq H58 HC PV full R.
-  assert (NE : scheme <> []) by (destruct scheme; discriminate).
   assert (HNE : host <> []) by (destruct host; discriminate).
   pose proof (port_text_ok T u PV) as PO.
   set (ht := [91] ++ host ++ [93]).
@@ -286,7 +295,7 @@ Proof.
   assert (F6 : (fam =? 6) || memN 58 host = true) by (rewrite H58; apply orb_true_r).
   pose proof (get_authority_v6 T O ht (port_text T u) scheme sep user pw fam host port ([] :: rest) q frag
                 HNE F6 eq_refl eq_refl) as GA.
-  pose proof (to_text_rendered T O ht HTNE (port_text T u) scheme sep user pw fam host port rest q frag NE N0 GA) as R0.
+  pose proof (to_text_rendered T O ht HTNE (port_text T u) scheme sep user pw fam host port rest q frag N0 GA) as R0.
   pose proof (eq_trans (eq_sym R0) R) as EF. inversion EF as [EF'].
   apply (rendered_wf T O TOK ht HTC (port_text T u) (port_back T u) PO
            (hostport_legal_v6 (port_text T u) (port_back T u) PO host HNE HC)
